@@ -15,7 +15,7 @@ import (
 // C22 — account storage behaves as a typed path-indexed map across transactions.
 //
 // Explicit-state search: 2 accounts x 2 paths = 4 slots; six value kinds
-// (Int, String, struct S: I, [Int], [AnyStruct], resource R: RI) each carrying
+// (Int, a 300-element [Int] that lives in its own multi-slab container, struct S: I, [Int], [AnyStruct], resource R: RI) each carrying
 // a payload that names the slot it was first saved to (so a stale or swapped
 // value is visible); operations save, load<T>, copy<T>, borrow<&T>, check<T>,
 // type(at:), with T ranging over exact, super-, sub- and unrelated types of
@@ -32,6 +32,8 @@ const c22Contract = `access(all) contract T {
   access(all) resource R: RI { access(all) let x: Int; init(_ x: Int) { self.x = x } }
   access(all) resource R2 { init() {} }
   access(all) fun mkR(_ x: Int): @R { return <- create R(x) }
+  // a value too large to be inlined in the account's storage map (its own, multi-slab container)
+  access(all) fun big(_ x: Int): [Int] { let r: [Int] = [x]; var i = 1; while i < 300 { r.append(i); i = i + 1 }; return r }
   access(all) fun content(_ v: AnyStruct): String {
     if let i = v as? Int { return i.toString() }
     if let s = v as? String { return s }
@@ -63,14 +65,14 @@ type c22Slot struct{ acct, path string }
 var c22Slots = []c22Slot{{"a1", "/storage/p"}, {"a1", "/storage/q"}, {"a2", "/storage/p"}, {"a2", "/storage/q"}}
 
 // value kinds
-var c22Kinds = []string{"int", "str", "s", "arr", "anyarr", "r"}
+var c22Kinds = []string{"int", "big", "s", "arr", "anyarr", "r"}
 
 func c22Expr(kind string, p int) string {
 	switch kind {
 	case "int":
 		return fmt.Sprint(p)
-	case "str":
-		return fmt.Sprintf("\"s%d\"", p)
+	case "big":
+		return fmt.Sprintf("T.big(%d)", p)
 	case "s":
 		return fmt.Sprintf("T.S(%d)", p)
 	case "arr":
@@ -88,8 +90,8 @@ func c22Show(kind string, p int) string {
 	switch kind {
 	case "int":
 		return fmt.Sprintf("Int=%d", p)
-	case "str":
-		return fmt.Sprintf("String=s%d", p)
+	case "big":
+		return fmt.Sprintf("[Int]=300:%d", p)
 	case "s":
 		return fmt.Sprintf("%sS=%d", c22Addr, p)
 	case "arr":
@@ -106,8 +108,8 @@ func c22TypeID(kind string) string {
 	switch kind {
 	case "int":
 		return "Int"
-	case "str":
-		return "String"
+	case "big":
+		return "[Int]"
 	case "s":
 		return c22Addr + "S"
 	case "arr":
@@ -143,13 +145,13 @@ var c22TypeByName = func() map[string]c22Type {
 // property's "the stored value's type is a subtype of T"
 var c22Conforms = map[string]map[string]bool{
 	"int":    {"Int": true, "Integer": true, "AnyStruct": true},
-	"str":    {"String": true, "AnyStruct": true},
+	"big":    {"ArrInt": true, "ArrAny": true, "AnyStruct": true},
 	"s":      {"S": true, "I": true, "AnyStruct": true},
 	"arr":    {"ArrInt": true, "ArrAny": true, "AnyStruct": true},
 	"anyarr": {"ArrAny": true, "AnyStruct": true},
 	"r":      {"R": true, "AnyResource": true, "RI": true},
 }
-var c22Exact = map[string]string{"int": "Int", "str": "String", "s": "S", "arr": "ArrInt", "anyarr": "ArrAny", "r": "R"}
+var c22Exact = map[string]string{"int": "Int", "big": "ArrInt", "s": "S", "arr": "ArrInt", "anyarr": "ArrAny", "r": "R"}
 
 // relation class for signatures and coverage
 func c22Relation(kind, t string) string {
@@ -511,13 +513,13 @@ func c22Ops(env *mc.Env) []string {
 				ops = append(ops,
 					fmt.Sprintf("mv:AnyStruct:%d:%d", s, d), fmt.Sprintf("mv:AnyResource:%d:%d", s, d),
 					fmt.Sprintf("mv:AnyStruct:%d:%d+panic", s, d), fmt.Sprintf("mv:AnyResource:%d:%d+panic", s, d),
-					fmt.Sprintf("save:s:%d+save:r:%d", s, d), fmt.Sprintf("save:str:%d+save:anyarr:%d+panic", s, d),
+					fmt.Sprintf("save:s:%d+save:r:%d", s, d), fmt.Sprintf("save:big:%d+save:anyarr:%d+panic", s, d),
 					fmt.Sprintf("save:int:%d+load:AnyStruct:%d", s, d), fmt.Sprintf("save:r:%d+load:AnyResource:%d+panic", s, d),
-					fmt.Sprintf("load:AnyStruct:%d+save:str:%d", s, d), fmt.Sprintf("load:AnyResource:%d+load:AnyResource:%d", s, d))
+					fmt.Sprintf("load:AnyStruct:%d+save:big:%d", s, d), fmt.Sprintf("load:AnyResource:%d+load:AnyResource:%d", s, d))
 			} else {
 				ops = append(ops,
 					fmt.Sprintf("save:int:%d+load:Int:%d", s, s),           // save then load in the same transaction
-					fmt.Sprintf("save:int:%d+save:str:%d", s, s),           // second save must fail -> first rolled back
+					fmt.Sprintf("save:int:%d+save:big:%d", s, s),           // second save must fail -> first rolled back
 					fmt.Sprintf("load:AnyStruct:%d+save:s:%d", s, s),       // overwrite
 					fmt.Sprintf("load:AnyResource:%d+save:r:%d", s, s),     // overwrite a resource
 					fmt.Sprintf("load:AnyStruct:%d+load:AnyStruct:%d", s, s), // second load sees nil
